@@ -386,6 +386,36 @@ fn rdata_names<'a>(d: &'a RData, out: &mut Vec<Name>) {
     }
 }
 
+/// Second-stage parsers that the public API applies to octets taken verbatim from the wire:
+/// `CAA::value_as_issue` / `value_as_iodef` (`read_issuer`: name text + `;key=value` state machine,
+/// `read_iodef`: URL).  Oracle: no panic; a name they return obeys the bounds.
+fn post_parsers(d: &RData, fails: &mut Vec<String>, stats: &mut Vec<String>) {
+    if let RData::CAA(c) = d {
+        use hickory_proto::rr::rdata::caa::{read_iodef, read_issuer};
+        match catch(|| (c.value_as_issue().map(|(n, kv)| (n, kv.len())), c.value_as_iodef().is_ok())) {
+            Ok((iss, iodef)) => {
+                stats.push(format!("caa.value_as_issue.{}", if iss.is_ok() { "ok" } else { "err" }));
+                stats.push(format!("caa.value_as_iodef.{}", if iodef { "ok" } else { "err" }));
+                if let Ok((Some(n), _)) = &iss {
+                    check_name(n, fails);
+                }
+            }
+            Err(p) => fails.push(format!("panic in CAA::value_as_issue/value_as_iodef on wire value {}: {p}", hex(&c.value))),
+        }
+        // the parsers are public and tag-independent
+        match catch(|| (read_issuer(&c.value).map(|(n, kv)| (n, kv.iter().map(|k| k.key().len() + k.value().len()).sum::<usize>())), read_iodef(&c.value).is_ok())) {
+            Ok((iss, iodef)) => {
+                stats.push(format!("caa.read_issuer.{}", if iss.is_ok() { "ok" } else { "err" }));
+                stats.push(format!("caa.read_iodef.{}", if iodef { "ok" } else { "err" }));
+                if let Ok((Some(n), _)) = &iss {
+                    check_name(n, fails);
+                }
+            }
+            Err(p) => fails.push(format!("panic in caa::read_issuer/read_iodef on wire value {}: {p}", hex(&c.value))),
+        }
+    }
+}
+
 fn check_record(r: &Record, fails: &mut Vec<String>) {
     check_name(&r.name, fails);
     let mut v = vec![];
@@ -393,6 +423,8 @@ fn check_record(r: &Record, fails: &mut Vec<String>) {
     for n in &v {
         check_name(n, fails);
     }
+    let mut st = vec![];
+    post_parsers(&r.data, fails, &mut st);
 }
 
 fn check_sections(q: &[&Query], secs: &[&[Record]], sig: Option<&Record<hickory_proto::rr::rdata::TSIG>>, fails: &mut Vec<String>) {
@@ -572,10 +604,59 @@ fn exec_inner(t: &[&str]) -> Option<(String, Vec<String>, bool, Vec<String>)> {
                     if u16::from(d.record_type()) != ty {
                         fails.push(format!("RData::read({ty}) produced a value of type {}", u16::from(d.record_type())));
                     }
+                    post_parsers(d, &mut fails, &mut stats);
+                    if ty == 37 {
+                        // alternative public entry point to the same codec
+                        match catch(|| hickory_proto::rr::rdata::CERT::try_from(&buf[pos..]).map(|c| show_rdata(&RData::CERT(c)))) {
+                            Ok(Ok(s2)) => {
+                                stats.push("cert.try_from.ok".into());
+                                if s2 != show_rdata(d) {
+                                    fails.push("CERT::try_from(&[u8]) and RData::read(CERT) differ".into());
+                                }
+                            }
+                            Ok(Err(_)) => fails.push("CERT::try_from(&[u8]) rejects what RData::read(CERT) accepts".into()),
+                            Err(p) => fails.push(format!("panic in CERT::try_from: {p}")),
+                        }
+                    }
                     nontrivial = true;
                     format!("ok {}", show_rdata(d))
                 }
-                Err(_) => "err".into(),
+                Err(_) => {
+                    if ty == 37 {
+                        match catch(|| hickory_proto::rr::rdata::CERT::try_from(&buf[pos..]).is_ok()) {
+                            Ok(false) => stats.push("cert.try_from.err".into()),
+                            Ok(true) => fails.push("CERT::try_from(&[u8]) accepts what RData::read(CERT) rejects".into()),
+                            Err(p) => fails.push(format!("panic in CERT::try_from: {p}")),
+                        }
+                    }
+                    "err".into()
+                }
+            }
+        }
+        ("readq", [n, buf, pos]) => {
+            let n: usize = n.parse().ok()?;
+            let buf = unhex(buf)?;
+            let pos: usize = pos.parse().ok()?;
+            if pos > buf.len() || pos > 0xFFFF || buf.len() > 0xFFFF || n > 0xFFFF {
+                return None;
+            }
+            let d0 = BinDecoder::new(&buf);
+            let mut d = d0.clone(pos as u16);
+            let (r, dt) = timed(|| Message::read_queries(&mut d, n));
+            if dt > BUDGET {
+                fails.push(format!("Message::read_queries took {dt:?}"));
+            }
+            match &r {
+                Ok(qs) => {
+                    qs.iter().for_each(|q| check_name(&q.name, &mut fails));
+                    stats.push("readq.ok".into());
+                    nontrivial = !qs.is_empty();
+                    format!("ok [{}] {}", qs.iter().map(show_query).collect::<Vec<_>>().join(","), d.index())
+                }
+                Err(_) => {
+                    stats.push("readq.err".into());
+                    "err".into()
+                }
             }
         }
         ("record", [buf, pos]) => {
@@ -653,6 +734,16 @@ fn exec_inner(t: &[&str]) -> Option<(String, Vec<String>, bool, Vec<String>)> {
                     let qs: Vec<&Query> = m.queries.iter().collect();
                     check_sections(&qs, &[&m.answers, &m.authorities, &m.additionals], m.signature.as_deref(), &mut fails);
                     stats.push("msg.ok".into());
+                    // accessors computed from decoded fields
+                    let want_mp = m.edns.as_ref().map_or(512, |e| e.max_payload().max(512));
+                    if m.max_payload() != want_mp || m.version() != m.edns.as_ref().map_or(0, |e| e.version()) {
+                        fails.push("Message::max_payload / version disagree with the decoded EDNS".into());
+                    }
+                    // Display / Debug of a decoded message (what a server logs): outside the property,
+                    // counted only
+                    if catch(|| format!("{m}").len() + format!("{m:?}").len()).is_err() {
+                        stats.push("info.display-panic.msg".into());
+                    }
                     for r in m.all_sections() {
                         stats.push(format!("msg.ok.rtype.{}", u16::from(r.record_type())));
                     }
@@ -692,6 +783,17 @@ fn exec_inner(t: &[&str]) -> Option<(String, Vec<String>, bool, Vec<String>)> {
                         &mut fails,
                     );
                     stats.push("req.ok".into());
+                    let want_mp = m.edns.as_ref().map_or(512, |e| e.max_payload().max(512));
+                    if m.max_payload() != want_mp || m.version() != m.edns.as_ref().map_or(0, |e| e.version()) {
+                        fails.push("MessageRequest::max_payload / version disagree with the decoded EDNS".into());
+                    }
+                    let info = m.request_info();
+                    if info.query.original() != m.queries.original() || m.as_slice() != &buf[..] || info.metadata.id != m.metadata.id {
+                        fails.push("Request::request_info / as_slice do not reflect the decoded request".into());
+                    }
+                    if catch(|| format!("{:?}", m).len()).is_err() {
+                        stats.push("info.display-panic.req".into());
+                    }
                     nontrivial = true;
                     format!("ok {}", show_request(m))
                 }
@@ -2099,6 +2201,161 @@ fn shape_cases(r: &mut Rng, samples: usize) -> Vec<String> {
     out
 }
 
+// ---------------------------------------------------------------- family: code tables
+// Every u8 / u16 coded field goes through a `From<u8>` / `From<u16>` table with one arm per assigned
+// value; an arm that is never taken is an arm on which code and model were never compared.
+fn enum_cases() -> Vec<String> {
+    let mut out = vec![];
+    let mut push = |t: u16, rd: Vec<u8>| out.push(format!("rdata {t} {} 0 #enum", hex(&rd)));
+    let u16s: Vec<u16> = (0u16..=26).chain([250, 251, 252, 253, 254, 255, 256, 257, 4095, 4096, 65279, 65280, 65281, 65534, 65535]).collect();
+    for v in 0..=255u8 {
+        push(25, vec![1, 0, v, 8, b'k']); // KEY protocol
+        push(25, vec![1, 0, 3, v, b'k']); // KEY algorithm
+        push(48, vec![1, 1, 3, v, b'k']); // DNSKEY algorithm
+        push(48, vec![1, 1, v, 8, b'k']); // DNSKEY protocol
+        push(60, vec![1, 1, 3, v, b'k']); // CDNSKEY algorithm (0 = delete)
+        push(43, vec![0, 1, v, 2, b'd']); // DS algorithm
+        push(43, vec![0, 1, 8, v, b'd']); // DS digest type
+        push(59, vec![0, 1, v, v, b'd']); // CDS
+        let mut sig = vec![0, 1, v, 2, 0, 0, 14, 16, 0, 0, 0, 2, 0, 0, 0, 1, 0xBE, 0xEF, 0];
+        sig.push(b's');
+        push(46, sig); // RRSIG algorithm
+        push(37, vec![0, 1, 0, 2, v, b'c']); // CERT algorithm
+        push(52, vec![v, 1, 1, b'd']); // TLSA usage
+        push(52, vec![3, v, 1, b'd']); // TLSA selector
+        push(53, vec![3, 1, v, b'd']); // SMIMEA matching
+        push(44, vec![v, 1, b'f']); // SSHFP algorithm
+        push(44, vec![1, v, b'f']); // SSHFP fingerprint type
+        push(50, vec![v, 0, 0, 1, 0, 1, b'h']); // NSEC3 hash algorithm
+        push(50, vec![1, v, 0, 1, 0, 1, b'h']); // NSEC3 flags
+        push(51, vec![1, v, 0, 1, 0]); // NSEC3PARAM flags
+        push(257, vec![v, 1, b'a', b'v']); // CAA flags
+        push(62, vec![0, 0, 0, 1, 0, v]); // CSYNC flags, low octet
+        push(62, vec![0, 0, 0, 1, v, 0]); // CSYNC flags, high octet
+    }
+    for v in u16s.iter().copied() {
+        let b = v.to_be_bytes();
+        push(37, vec![b[0], b[1], 0, 2, 8, b'c']); // CERT type
+        let mut sig = vec![b[0], b[1], 8, 2, 0, 0, 14, 16, 0, 0, 0, 2, 0, 0, 0, 1, 0xBE, 0xEF, 0];
+        sig.push(b's');
+        push(24, sig); // SIG type covered
+        // TSIG error code
+        let mut t = vec![11];
+        t.extend(b"hmac-sha256");
+        t.extend([0, 0, 0, 0, 0, 0, 1, 1, 44, 0, 0, 0x12, 0x34, b[0], b[1], 0, 0]);
+        push(250, t);
+        // OPT option code with empty / 8-octet / subnet-shaped data
+        push(41, vec![b[0], b[1], 0, 0]);
+        let mut o = vec![b[0], b[1], 0, 8];
+        o.extend([0, 1, 24, 0, 192, 0, 2, 9]);
+        push(41, o);
+        // SVCB parameter key with an empty / 2-octet / 4-octet value
+        for val in [&[][..], &[0, 80], &[192, 0, 2, 1], &[2, b'h', b'2']] {
+            let mut sv = vec![0, 1, 0, b[0], b[1]];
+            sv.extend((val.len() as u16).to_be_bytes());
+            sv.extend(val);
+            push(64, sv);
+        }
+        // type bitmap naming that type
+        let mut n = vec![0, (v >> 8) as u8, ((v & 0xFF) / 8 + 1) as u8];
+        n.extend(vec![0u8; ((v & 0xFF) / 8) as usize]);
+        n.push(0x80 >> (v & 7));
+        push(47, n);
+    }
+    drop(push);
+    // header: every opcode x every rcode, all flag bits; question type / class tables
+    for op in 0..16u8 {
+        for rc in 0..16u8 {
+            let m = vec![0, 1, (op << 3) | if rc % 2 == 0 { 0x85 } else { 0x02 }, rc | if op % 2 == 0 { 0xB0 } else { 0x40 }, 0, 0, 0, 0, 0, 0, 0, 0];
+            out.push(format!("msg {} #enum", hex(&m)));
+        }
+    }
+    for v in u16s.iter().copied().chain(27..=70).chain([99, 249, 32768, 32769, 65305]) {
+        let b = v.to_be_bytes();
+        let mut m = vec![0, 1, 1, 0, 0, 1, 0, 0, 0, 0, 0, 0, 1, b'q', 0, b[0], b[1], 0, 1];
+        out.push(format!("msg {} #enum", hex(&m)));
+        m[17] = b[0];
+        m[18] = b[1];
+        m[15] = 0;
+        m[16] = 1;
+        out.push(format!("req {} #enum", hex(&m)));
+        // record class / OPT payload size, extended rcode with that high part
+        let mut r = vec![0, 1, 0x81, 0x83, 0, 0, 0, 1, 0, 0, 0, 1];
+        r.extend([1, b'o', 0, 0, 1, b[0], b[1], 0, 0, 0, 1, 0, 4, 1, 2, 3, 4]);
+        r.extend([0, 0, 41, b[0], b[1], b[1], b[0], b[0], b[1], 0, 0]);
+        out.push(format!("msg {} #enum", hex(&r)));
+    }
+    out
+}
+
+// ---------------------------------------------------------------- family: CAA values (second-stage parsers)
+fn caa_value_cases(r: &mut Rng, n: usize) -> Vec<String> {
+    const VALUES: &[&[u8]] = &[
+        b"", b";", b"ca.example.net", b"ca.example.net.", b"ca.example.net; account=230123", b"; policy=ev", b"ca.example.net;a=b;c=d;",
+        b"ca.example.net; a-b=c", b"ca.example.net; -a=c", b"ca.example.net; a", b"ca.example.net; a=", b"ca.example.net; =b", b"ca.example.net; a=b c",
+        b"ca.example.net;\ta=b", b"\\", b"a\\", b"a\\.b", b"a\\046b", b"a\\04", b"a\\999", b"a\\0", b"\\000", b"a..b", b".", b"..", b"*", b"*.example", b"xn--zz", b"xn--",
+        b"-a", b"a b", b"a\x00b", b"\xff\xfe", b"\xc3\x28", b"a%b", b"\"a\"", b"'", b"a;b;c", b";;;;", b"a;=;", b"a;b==c", b"a;b=c=d",
+        b"mailto:security@example.com", b"https://iodef.example.com/", b"http://[::1]:80/", b"http://[", b"://", b"a:", b"file:///etc/passwd", b"http://a b/", b"http://\xff/", b"HTTP://EXAMPLE.COM:65536/",
+    ];
+    let mut out = vec![];
+    let tags: [&[u8]; 6] = [b"issue", b"issuewild", b"iodef", b"ISSUE", b"IoDef", b"foo"];
+    for (i, v) in VALUES.iter().enumerate() {
+        for tag in [tags[i % 3], tags[3 + i % 3]] {
+            let mut rd = vec![if i % 2 == 0 { 0 } else { 128 }, tag.len() as u8];
+            rd.extend(tag);
+            rd.extend(*v);
+            out.push(format!("rdata 257 {} 0 #caa-value", hex(&rd)));
+        }
+    }
+    // long labels / long names in the issuer name, random printable and random octets
+    for k in 0..n {
+        let v: Vec<u8> = match k % 5 {
+            0 => vec![b'a'; *r.pick(&[63usize, 64, 253, 254, 255, 256, 1000])],
+            1 => std::iter::repeat(&b"abcdefgh."[..]).take(r.range(1, 40) as usize).flatten().copied().collect(),
+            2 => (0..r.range(1, 40)).map(|_| *r.pick(b"ab.;= \\019-_*\t")).collect(),
+            3 => {
+                let n = r.range(1, 30) as usize;
+                r.bytes(n)
+            }
+            _ => {
+                let mut s = b"ca.example; ".to_vec();
+                s.extend((0..r.range(1, 30)).map(|_| *r.pick(b"ab=;- 0\t")));
+                s
+            }
+        };
+        let tag = tags[k % 3];
+        let mut rd = vec![0, tag.len() as u8];
+        rd.extend(tag);
+        rd.extend(v);
+        out.push(format!("rdata 257 {} 0 #caa-value", hex(&rd)));
+    }
+    out
+}
+
+/// `Message::read_queries` with counts around what the buffer holds
+fn readq_cases(r: &mut Rng, n: usize) -> Vec<String> {
+    let mut out = vec![];
+    for _ in 0..n {
+        let k = r.below(4) as usize;
+        let pre = *r.pick(&[0usize, 2, 12]);
+        let mut buf = r.bytes(pre);
+        let pos = buf.len();
+        for _ in 0..k {
+            buf.extend(if r.chance(1, 4) && pos >= 2 { entry_name(r, &[0, pos]) } else { xname(r) });
+            buf.extend((*r.pick(ALL_TYPES)).to_be_bytes());
+            buf.extend((*r.pick(&[1u16, 3, 4, 254, 255, 0, 512])).to_be_bytes());
+        }
+        if r.chance(1, 4) && !buf.is_empty() {
+            let cut = r.below(buf.len() as u64) as usize;
+            buf.truncate(cut.max(pos));
+        }
+        for count in [k, k + 1, k.saturating_sub(1), 0, 65535] {
+            out.push(format!("readq {count} {} {pos} #readq", hex(&buf)));
+        }
+    }
+    out
+}
+
 fn generate(o: &Opts, rec: &mut Recorder, w: &Watch) {
     let mut r = Rng::new(o.seed);
     // pointer graphs first: a pointer cycle that is followed is a hang, better found early
@@ -2112,6 +2369,9 @@ fn generate(o: &Opts, rec: &mut Recorder, w: &Watch) {
         fam.extend(sweep_cases(&mut r));
     }
     fam.extend(shape_cases(&mut r, if o.thorough() { 8 } else { 1 }));
+    fam.extend(enum_cases());
+    fam.extend(caa_value_cases(&mut r, if o.thorough() { 5000 } else { 150 }));
+    fam.extend(readq_cases(&mut r, if o.thorough() { 4000 } else { 120 }));
     rec.stat(&format!("info.size_of.Record.{}", std::mem::size_of::<Record>()));
     rec.stat(&format!("info.size_of.Query.{}", std::mem::size_of::<Query>()));
     for l in fam {
